@@ -15,7 +15,7 @@ use serde_json::json;
 pub static DEF: PropDef = PropDef {
     id: "C18",
     level: "exploration",
-    total: |t| t.pick(64, 3200),
+    total: |t| t.pick(512, 9600),
     run,
     rule: "compute_checksum build: for generated IPv4 headers, UDP datagrams and TCP segments (C08's generators: all field ranges, payloads even/odd/empty/maximal) the emitted checksum must verify under an independent RFC 1071 implementation (sum over header [+pseudo header +payload] including the checksum field folds to 0xFFFF) and equal the reference implementation's; the decoders must accept the reference packets; every single-bit flip and sampled double-bit flips of emitted packets that change the one's-complement sum must be rejected; plus constructed packets whose sum before complementing is 0xFFFF (one free 16-bit field solved for). Non-trivial = distinct (protocol, payload parity/size class, flip class) tuple.",
     assumptions: &[
